@@ -355,3 +355,10 @@ Proof.
   destruct (known_gap old new) eqn:Hg; [right; reflexivity|].
   exfalso. pose proof (complete_under_silence old new (wf_wfp old Ho) (wf_wfp new Hn) Hd Hg n K Hb). congruence.
 Qed.
+
+(* non-vacuity: a pair meeting every hypothesis of the completeness theorem, on which the diff indeed reports *)
+Example complete_premises_satisfiable :
+  let old := [mk 0 PK None; mk 1 PK (Some 1)] in let new := [mk 0 PK None; mk 1 KO (Some 1)] in
+  wf old = true /\ wf new = true /\ binds old 2 [] = true /\ binds new 2 [] = false /\
+  fdiff old new = [ChKind 1] /\ known_gap old new = false.
+Proof. repeat split; reflexivity. Qed.
